@@ -1,6 +1,6 @@
 """per-property stream lists, oracles (the property evaluated on the implementation's own outputs)
 and non-triviality rules"""
-import struct
+import struct, sys, os, json
 from checklib import run_stream
 
 
@@ -267,6 +267,17 @@ def c11_oracle(op, impl):
         vexpr, cl = t[1], t[2]
     elif t[0] == "unseal.val":
         vexpr, cl = t[2], t[3]
+    elif t[0] == "o.zst":
+        # validators given as values of the library's own (partly zero-sized) types
+        if impl == "panic" or not impl.startswith("ok "):
+            return ("unsealing with a built-in validator value failed outright: " + impl[:80], "core/unseal/validator-value")
+        f = dict(x.split("=") for x in impl[3:].split(" "))
+        has = f["exp"] == "1"
+        want = {"hasexp": has, "and": has, "novand": has, "boxed": has, "slice": has, "reject": False, "accept": True, "accrej": False}
+        bad = [k for k, w in want.items() if f.get(k) != ("ok" if w else "claims")]
+        if bad:
+            return ("claims released although the validator rejects them (or withheld although it accepts), for validator value(s) %s: %s" % (",".join(bad), impl), "core/unseal/validator-value")
+        return None
     else:
         return None
     c = parse_claims(cl)
@@ -287,6 +298,8 @@ def c11_oracle(op, impl):
 
 def c11_nontrivial(op, impl):
     t = op.split(" ")
+    if t[0] == "o.zst":
+        return ("o.zst", t[1], impl[-5:])
     v = t[1] if t[0] == "val" else t[2]
     import re
     shape = re.sub(r"-?[0-9a-f]+|-", "", v)
@@ -843,6 +856,24 @@ def c04_oracle(op, impl):
 
 def run_c04(ctx):
     nt = lambda o, i: (o.split(" ")[0], o.split(" ")[1], len(o) // 64, i[:10])
+    # informational (never a verdict: counts move under harmless refactors): where the library's own code *can* panic
+    try:
+        import panicscan
+        ps = panicscan.scan()
+        ctx.cov["panic_capable_constructs"] = {"files": len(ps), "sites": sum(n for _, n in ps), "per_file": dict(ps),
+                                               "note": "unwrap / expect / assert-family / unreachable / split_at / copy_from_slice / index expressions, token scan of the library crates; the streams below drive every parser and every operation on parsed values through them under catch_unwind"}
+    except Exception as e:
+        ctx.note("panicscan failed: %r" % (e,))
+    # thorough tier: sensitivity of the lc/mod.rs translator + ownership checker on defective variants of the current source
+    if ctx.tier == "thorough":
+        import checklib
+        rc, out, err = checklib.sh([sys.executable, os.path.join(os.path.dirname(os.path.abspath(__file__)), "ffiscan_selftest.py")], timeout=1200)
+        try:
+            st = json.loads(out)
+            ctx.cov["ffi_translator_selftest"] = {"clean_accepted": st.get("clean_accepted"), "rejected": st.get("rejected"), "missed": st.get("missed"), "not_applicable": st.get("not_applicable")}
+            ctx.note("ffiscan self-test: %d defective variants rejected, %d missed, %d n/a" % (len(st.get("rejected", [])), len(st.get("missed", [])), len(st.get("not_applicable", []))))
+        except Exception:
+            ctx.note("ffiscan self-test did not produce a result: %s" % (out + err)[-300:])
     run_stream(ctx, "malformed", ["c04"], policy="okerr", oracle=c04_oracle, nontrivial=nt)
     def keys_oracle(o, i):
         r = c04_oracle(o, i)
